@@ -64,9 +64,10 @@ def main():
             print("no units", file=sys.stderr)
             return 3
         results = common.run_units(units)
-        # second chance for units the SOLVER BUDGET left undecided (a timeout under a fully loaded machine, never a wrong answer):
+        # second chance for units the SOLVER BUDGET left undecided or whose worker process died (a timeout / a lost worker on a fully
+        # loaded machine, never a wrong answer):
         # re-run those units alone, two at a time, with a tripled solver / wall-clock budget; their new results replace the old ones
-        retry = [u for u in units if u.engine != "rtc" and (results.get(u.name, {}).get("kind") == "timeout" or any(
+        retry = [u for u in units if u.engine != "rtc" and (results.get(u.name, {}).get("kind") in ("timeout", "crash") or any(
             o.get("status") == "unknown" and ("cancel" in str(o.get("reason")) or "timeout" in str(o.get("reason"))) for o in results.get(u.name, {}).get("obligations", [])))]
         if retry and len(retry) <= 8:
             os.environ["VERIF_TIMEOUT_SCALE"] = "3"
